@@ -32,7 +32,74 @@ func runC19(c *core.Ctx) {
 	}
 }
 
+// c19queuedBig: capacities around and above 64 (chunked implementations), limits
+// around multiples of 64, fewer / exactly / more values queued than the limit.
+func c19queuedBig(c *core.Ctx) {
+	k := int(c.Index - 48)
+	capa := []int{64, 65, 100, 129, 200, 300}[k%6]
+	closed := (k/6)%2 == 1
+	full := (k/12)%2 == 1
+	for _, fill := range []int{0, 1, capa / 2, capa - 1, capa} {
+		for _, limit := range []int{0, 1, 63, 64, 65, 100, 127, 128, 129, 191, 192, 193, capa - 1, capa, capa + 1, capa + 70} {
+			if limit < 0 {
+				continue
+			}
+			ch := make(chan int, capa)
+			for i := 0; i < fill; i++ {
+				ch <- 100 + i
+			}
+			if closed {
+				close(ch)
+			}
+			want := fill
+			if limit < want {
+				want = limit
+			}
+			name := "RecvQueued"
+			if full {
+				name = "RecvQueuedFull"
+			}
+			desc := fmt.Sprintf("%s(cap=%d fill=%d closed=%v limit=%d)", name, capa, fill, closed, limit)
+			fmt.Fprintf(os.Stderr, "VWORK-OP %s\n", desc)
+			var got []int
+			if full {
+				buf := make([]int, limit)
+				n := chans.RecvQueuedFull(ch, buf)
+				if n < 0 || n > limit {
+					c.Violate(name+":count[big]", fmt.Sprintf("%s returned %d", desc, n), nil)
+					return
+				}
+				got = buf[:n]
+			} else {
+				got = chans.RecvQueued(ch, limit)
+			}
+			c.Count("queued_calls", 1)
+			c.Count("queued_big_capacity", 1)
+			if len(got) != want {
+				c.Violate(name+":count[big]", fmt.Sprintf("%s returned %d values, %d were queued and the limit is %d", desc, len(got), fill, limit), nil)
+				return
+			}
+			for i, v := range got {
+				if v != 100+i {
+					c.Violate(name+":order-or-invented[big]", fmt.Sprintf("%s: value %d is %d", desc, i, v), nil)
+					return
+				}
+			}
+			if len(ch) != fill-want {
+				c.Violate(name+":consumed-too-much[big]", fmt.Sprintf("%s left %d values in the channel, expected %d", desc, len(ch), fill-want), nil)
+				return
+			}
+		}
+	}
+	c.Count("exhaustive_sweeps_completed", 1)
+	c.NonTrivial(core.Mix(191, uint64(k)))
+}
+
 func c19queued(c *core.Ctx) {
+	if c.Index >= 48 {
+		c19queuedBig(c)
+		return
+	}
 	// case index -> capacity (0..5) and closed flag; all fills and limits inside
 	capa := int(c.Index % 6)
 	closed := (c.Index/6)%2 == 1
@@ -388,6 +455,10 @@ func c19recv(c *core.Ctx, r *core.Rand) {
 	closeAtEnd := r.Chance(1, 3)
 	produce := r.Range(0, nr*per+2)
 	pdelay := r.Intn(3)
+	neverCancel := useCtx && closeAtEnd && r.Chance(1, 2)
+	if neverCancel && produce > nr*per {
+		produce = nr * per // the producer must reach its close
+	}
 	var sent []int
 	stop := make(chan struct{})
 	prodDone := make(chan struct{})
@@ -416,6 +487,11 @@ func c19recv(c *core.Ctx, r *core.Rand) {
 		}
 	}()
 	ctx, cancel := context.WithCancel(context.Background())
+	if neverCancel {
+		// a context that can never be cancelled (Done() == nil): only the close ends the receivers
+		type ck struct{}
+		ctx = []context.Context{context.Background(), context.TODO(), context.WithValue(context.Background(), ck{}, 1)}[r.Intn(3)]
+	}
 	time.AfterFunc(dur(r, 20, 3000), func() {
 		if useCtx {
 			cancel()
